@@ -12,9 +12,9 @@ pub open spec fn content_ok(fs: Fs, cache: PathV) -> bool {
 }
 /// files and links outside `d` are the same in both states (directories may differ)
 pub open spec fn files_same_outside(a: Fs, b: Fs, d: PathV) -> bool {
-    &&& forall|p: PathV| !under(p, d) ==> (#[trigger] a.files.contains_key(p) <==> b.files.contains_key(p))
+    &&& forall|p: PathV| #![trigger a.files.contains_key(p)] #![trigger b.files.contains_key(p)] !under(p, d) ==> (a.files.contains_key(p) <==> b.files.contains_key(p))
     &&& forall|p: PathV| !under(p, d) && #[trigger] a.files.contains_key(p) ==> a.files[p] == b.files[p]
-    &&& forall|p: PathV| !under(p, d) ==> (#[trigger] a.links.contains_key(p) <==> b.links.contains_key(p))
+    &&& forall|p: PathV| #![trigger a.links.contains_key(p)] #![trigger b.links.contains_key(p)] !under(p, d) ==> (a.links.contains_key(p) <==> b.links.contains_key(p))
     &&& forall|p: PathV| !under(p, d) && #[trigger] a.links.contains_key(p) ==> a.links[p] == b.links[p]
 }
 /// `post` was reached from `pre` through states that differ from `pre.fs` only inside `d`
